@@ -1,4 +1,4 @@
-//go:build verif && verif_c06
+//go:build verif && (verif_c06 || verif_c11)
 
 package main
 
